@@ -30,6 +30,22 @@ fn main() {
         let ws: Vec<&str> = line.split(' ').collect();
         // scenarios decided by the harness's own oracle have no counterpart here: echoed like the model does
         if ws[0] == "oracle" { out.push_str("ok\n"); continue; }
+        if ws.len() == 4 && ws[0] == "zfmt" {
+            // Display / Debug of a huge zero-sized matrix (same element type and construction as the harness: a row vector)
+            #[derive(Clone, Copy, Debug)]
+            struct Zs;
+            impl std::fmt::Display for Zs {
+                fn fmt(&self, f: &mut std::fmt::Formatter<'_>) -> std::fmt::Result { f.write_str("z") }
+            }
+            let n: usize = ws[2].parse().unwrap();
+            let mut v: Vec<Zs> = Vec::new();
+            unsafe { v.set_len(n) };
+            let m = Matrix::from_row(v);
+            let which = ws[1].to_string();
+            let res = std::panic::catch_unwind(std::panic::AssertUnwindSafe(|| if which == "debug" { format!("{:?}", m).len() } else { format!("{}", m).len() }));
+            out.push_str(if res.is_ok() { "ok\n" } else { "panic\n" });
+            continue;
+        }
         if ws.len() != 6 || ws[0] != "fmt" { out.push_str("bad-op\n"); continue; }
         let (kind, order) = (ws[1], ws[2]);
         let nr: usize = ws[3].parse().unwrap();
